@@ -26,7 +26,7 @@ func init() {
 			}
 			return 16
 		},
-		Rule: "each case = (a) 93%: one random block tree grown against the real code (tracker level: txlocator manager+trackers composed with service.CheckTxTimestamp exactly as transition.doExecute does; service level: service.NewTransition(validated=false) on a real world state): 12-40 steps of extend/fork/commit with block times strictly increasing, thresholds 1..6 units constant or changing between blocks, transaction timestamps biased to the window edges {bts-th, bts-th+1, bts+th-1, bts+th, bts+th+1}, duplicates planted in the same block / unfinalized parent / deeper unfinalized ancestor / finalized ancestor still cached / finalized ancestor evicted to the DB, transactions of sibling branches re-used (must be accepted). Every ancestor is a block the model accepts. Oracle = per-branch id set + window predicate of the statement; real verdict must equal the model's. (b) 2.5%: concurrency run: one committer goroutine extending/finalizing a 40-100 block chain (finalization lag 0-2 blocks) while 4-8 goroutines query manager.Has / tip tracker.Has under the race detector, grow-only-set oracle (present after Commit returned while the timestamp can still be in a next block's window; unknown ids never present). Non-trivial = distinct candidate (structure relative to its block time, 6 ancestors deep) that contains a replay whose timestamp the candidate's window accepts, or a timestamp exactly on a window edge, or a sibling-branch transaction.",
+		Rule: "each case = (a) 93%: one random block tree grown against the real code (tracker level: txlocator manager+trackers composed with service.CheckTxTimestamp exactly as transition.doExecute does; service level: service.NewTransition(validated=false) on a real world state, thresholds of 1-6 ms or of 2-5 minutes / the unset default of 5 min at real microsecond timestamps, i.e. above the 1-minute patch-group constant): 12-40 steps of extend/fork/commit with block times strictly increasing, thresholds 1..6 units constant or changing between blocks, transaction timestamps biased to the window edges {bts-th, bts-th+1, bts+th-1, bts+th, bts+th+1}, duplicates planted in the same block / unfinalized parent / deeper unfinalized ancestor / finalized ancestor still cached / finalized ancestor evicted to the DB, transactions of sibling branches re-used (must be accepted). Every ancestor is a block the model accepts. Oracle = per-branch id set + window predicate of the statement; real verdict must equal the model's. (b) 2.5%: concurrency run: one committer goroutine extending/finalizing a 40-100 block chain (finalization lag 0-2 blocks) while 4-8 goroutines query manager.Has / tip tracker.Has under the race detector, grow-only-set oracle (present after Commit returned while the timestamp can still be in a next block's window; unknown ids never present). Non-trivial = distinct candidate (structure relative to its block time, 6 ancestors deep) that contains a replay whose timestamp the candidate's window accepts, or a timestamp exactly on a window edge, or a sibling-branch transaction.",
 		MinNonTrivial: func(t string) int {
 			if t == ev.Thorough {
 				return 200000
@@ -45,6 +45,7 @@ func init() {
 			"service_commits", "service_edge_eq-min", "service_edge_eq-max", "service_edge_max+1", "service_edge_min+1",
 			"service_replay_in_window_unfinalized-parent", "service_replay_in_window_unfinalized-deeper", "service_replay_in_window_finalized",
 			"service_replay_in_window_ts-eq-origin-max", "service_threshold_changed", "service_sibling_branch_tx_accepted",
+			"service_trees_minute_thresholds", "service_replay_in_window_ts_ge_origin_bts_plus_1min_unfinalized-parent", "service_replay_in_window_ts_ge_origin_bts_plus_1min_finalized",
 			"conc_runs", "conc_queries_after_commit_judged", "conc_queries_unknown_id", "conc_queries_via_tip_tracker",
 		},
 		Assumptions: []string{
